@@ -337,7 +337,7 @@ _run_clauses = run
 def run(prog, rep):
     _run_clauses(prog, rep)
     from plint.wiring import check_zero_init
-    check_zero_init(rep, "C01.4", prog, ['pmutex-posix.c', 'pspinlock-c11.c', 'pspinlock-sync.c', 'pspinlock-sim.c'], 4)
+    check_zero_init(rep, "C01.4", prog, ['pmutex-posix.c', 'pspinlock-c11.c', 'pspinlock-sync.c', 'pspinlock-sim.c'], 1)
 
 # generic robustness battery: renaming every local/parameter in these files must not change any verdict
 RENAME_LOCALS = ['src/pmutex-posix.c', 'src/pspinlock-c11.c', 'src/pspinlock-sync.c', 'src/pspinlock-sim.c']
